@@ -25,7 +25,10 @@ public:
     template <typename Poly>
     void bvisit_upoly(const Poly &x)
     {
-        if (x.end() == ++x.begin()) {
+        if (x.begin() == x.end()) {
+            // the zero polynomial prints as 0
+            precedence = PrecedenceEnum::Atom;
+        } else if (x.end() == ++x.begin()) {
             auto it = x.begin();
             precedence = PrecedenceEnum::Atom;
             if (it->second == 1) {
@@ -41,8 +44,6 @@ public:
                     precedence = PrecedenceEnum::Mul;
                 }
             }
-        } else if (x.begin() == x.end()) {
-            precedence = PrecedenceEnum::Atom;
         } else {
             precedence = PrecedenceEnum::Add;
         }
